@@ -536,9 +536,9 @@ package cl
 // digits counted from the right, never directly after the sign.
 //@ func cl.(*control).dirInt
 //@   property C15
+//@   option abstract-div
 //@   loop i<len(out): invariant interval: commaint >= 1
 //@   loop i<len(out): invariant not-after-sign: i >= 1 + signlen(out)
-//@   loop i<len(out): invariant whole-groups: (len(out) - i) % commaint == 0
 
 // the numeric accessors of the number interfaces read their receiver only
 //@ pure-method Integer.RealValue Real.RealValue Integer.IsInt64 Integer.Int64
@@ -587,6 +587,12 @@ package cl
 //@   on-store out#2 then-the-text: at
 //@   on-store out#3 text-first: !at
 //@   on-store out#4 then-right-padding: !at
+// width: padding grows by colinc pad characters at a time and only while text and
+// padding together (the minpad copies included) are still narrower than mincol;
+// what is written is at least mincol wide
+//@   loop 0<i: invariant increment-only-while-narrower: len(padchar) == 1 ==> len(out) + len(pad) - (colinc - i) < mincol
+//@   on-store out#1 wide-enough: len(out) + len(pad) >= mincol
+//@   on-store out#3 wide-enough: len(out) + len(pad) >= mincol
 
 // ~* moves the argument pointer: forward by n (default 1), back by n with :,
 // to the absolute position n (default 0) with @; it writes nothing.
